@@ -375,3 +375,46 @@ def search_loop(body: list[ast.stmt], **dt) -> Search:
             raise Unsupported("search: code after the loop is not a single return", tail[0])
         default = tail[0].value
     return Search(lp, norm(lp.target), lp.iter, decision_tree(lp.body, **dt), default, body[:i])
+
+
+def lower_collect(body: list[ast.stmt]) -> list[ast.stmt]:
+    """``return [E for T in S if C]``  ->  ``__acc = []; for T in S: if C: __acc.append(E)``; ``return __acc``
+    (also for ``return list(<generator>)`` / ``tuple(...)`` is left alone: the result type differs)."""
+    if not body or not isinstance(body[-1], ast.Return) or body[-1].value is None:
+        return body
+    ret = body[-1]
+    v = ret.value
+    if isinstance(v, ast.Call) and isinstance(v.func, ast.Name) and v.func.id == "list" and len(v.args) == 1 and isinstance(v.args[0], ast.GeneratorExp):
+        v = v.args[0]
+    if not isinstance(v, (ast.ListComp, ast.GeneratorExp)) or (isinstance(v, ast.GeneratorExp) and v is ret.value) or len(v.generators) != 1:
+        return body
+    gen = v.generators[0]
+    app: ast.stmt = ast.Expr(value=ast.Call(func=ast.Attribute(value=ast.Name(id="__acc", ctx=ast.Load()), attr="append", ctx=ast.Load()), args=[v.elt], keywords=[]))
+    inner: list[ast.stmt] = [app]
+    for c in gen.ifs[::-1]:
+        inner = [ast.If(test=c, body=inner, orelse=[])]
+    new: list[ast.stmt] = [
+        ast.Assign(targets=[ast.Name(id="__acc", ctx=ast.Store())], value=ast.List(elts=[], ctx=ast.Load())),
+        ast.For(target=gen.target, iter=gen.iter, body=inner, orelse=[]),
+        ast.Return(value=ast.Name(id="__acc", ctx=ast.Load())),
+    ]
+    for st in new:
+        ast.copy_location(st, ret)
+        ast.fix_missing_locations(st)
+    return body[:-1] + new
+
+
+def module_constant(tree: ast.Module, name: str) -> ast.expr | None:
+    """The literal a module-level name is bound to (exactly once), for names used as constants."""
+    defs = [st for st in tree.body if isinstance(st, (ast.Assign, ast.AnnAssign))
+            and any(isinstance(t, ast.Name) and t.id == name for t in (st.targets if isinstance(st, ast.Assign) else [st.target]))]
+    if len(defs) != 1 or defs[0].value is None:
+        return None
+    v = defs[0].value
+    if isinstance(v, ast.Call) and isinstance(v.func, ast.Name) and v.func.id in ("frozenset", "set", "tuple") and len(v.args) == 1:
+        v = v.args[0]
+    if isinstance(v, (ast.Tuple, ast.List, ast.Set)) and all(isinstance(e, ast.Constant) for e in v.elts):
+        return v
+    if isinstance(v, ast.Constant):
+        return v
+    return None
